@@ -92,7 +92,10 @@ EvLogEpoch ==
   /\ Fail(Order \cup Announced \cup If(E.step # st.t, "LogStepIsLoopIndex") \cup If(~E.live, "EpochLogsLiveModel"))
   /\ st' = [st EXCEPT !.due = DueRest]
 
-(* replay_buffer.sample_batch(len(replay_buffer), rng) *)
+(* replay_buffer.sample_batch(len(replay_buffer), rng): as many rows as the buffer holds, each of them a stored transition.
+   WHAT THE CODE DOES (BatchIsResampleOfBuffer): ReplayBuffer.sample_batch draws indices with replacement, so the batch is a
+   bootstrap resample of the data set, not the data set itself ("Train dynamics model f given D" in the docstring) - hence
+   membership, not equality, is the clause. *)
 EvSample ==
   /\ E.ev = "sample"
   /\ Fail(Order \cup If(~AtTrainPoint, "TrainOnlyWhenDue")
